@@ -10,7 +10,7 @@ CHECKS = {
     "C16": dict(
         engine="E3 AST path encoder + z3; E1 CrossHair; E4 havoc",
         technique="z3 path queries over the AST of every function touching expand_stack (all syntactic paths, unbounded input); CrossHair symbolic execution of the message/start_page code",
-        text="Balance of the expansion path is decided for every syntactic path of the real source (branch outcomes symbolic), under the callee-balanced induction hypothesis; message-record shape and start_page reset are confirmed over all paths for symbolic context fields within small string bounds. Counterexamples are replayed on Wtp.expand before being reported.",
+        text="Balance of the expansion path is decided for every syntactic path of the real source (branch outcomes symbolic), under the callee-balanced induction hypothesis; message-record shape and start_page reset are confirmed over all paths for symbolic context fields within small string bounds. Counterexamples are replayed on Wtp.expand before being reported. For call_lua_sandbox the call into Lua is modelled as leaving any number L >= 0 of extra path entries (Python exceptions swallowed by pcall inside frame callbacks): only restoring the saved depth balances every returning path.",
         design_ref="DESIGN.md 3 C16",
         note="Assumes callees/hooks are balanced and that exceptions escaping expand() are out of scope; trusts the AST encoder (vf/astpaths.py), z3, CrossHair.",
     ),
@@ -32,14 +32,14 @@ CHECKS["C18"] = dict(
 CHECKS["C05"] = dict(
     engine="E1 CrossHair; E3 AST path encoder + z3",
     technique="CrossHair symbolic execution of every parser-function implementation with symbolic Unicode arguments (exceptions = counterexamples); z3 dominance queries over the AST for the depth guard, the namespace-table lookups and the #expr exception barrier; CrossHair case split for the loop detector",
-    text="Totality of the parser functions is explored symbolically for 0..3 arguments of up to 2 Unicode characters each, with an identity and with an arbitrary expander (about half of the conditions are confirmed over all paths, the rest explored without counterexample); the template-depth guard dominates every recursive expansion on every syntactic path (z3, unbounded); namespace lookups with computed keys are dominated by membership tests; #expr's evaluator and result conversion are inside an exception barrier covering ValueError/ArithmeticError/TypeError; the loop detector equals its specification for all stacks of up to 5 entries and the loop test precedes the expansion of a call's arguments on every syntactic path (cycles closing through an argument are cut). Termination of expand() for every template graph is NOT claimed. The expansion-path balance queries of C16 are discharged here too (the depth guard and the loop detector read that stack).",
+    text="Totality of the parser functions is explored symbolically for 0..3 arguments of up to 2 Unicode characters each, with an identity and with an arbitrary expander (about half of the conditions are confirmed over all paths, the rest explored without counterexample); the template-depth guard dominates every recursive expansion on every syntactic path (z3, unbounded); namespace lookups with computed keys are dominated by membership tests; #expr's evaluator and result conversion are inside an exception barrier covering ValueError/ArithmeticError/TypeError; the loop detector equals its specification for all stacks of up to 5 entries and the loop test precedes the expansion of a call's arguments on every syntactic path (cycles closing through an argument are cut). Termination of expand() for every template graph is NOT claimed. The expansion-path balance queries of C16 are discharged here too (the depth guard and the loop detector read that stack). Every int() applied to argument text must sit inside a ValueError handler (CPython refuses numerals above 4300 digits): 18 unguarded sites, 13 raising inputs recorded as open findings and probed on every run; the #expr barrier must also cover RecursionError because the evaluator is recursive.",
     design_ref="DESIGN.md 3 C05",
     note="Page store stubbed to 'absent' in the totality harness; functions behind network/clock/dateparser are excluded (listed in evidence); floats are reals in CrossHair; replays go through Wtp.expand or call_parser_function.",
 )
 CHECKS["C09"] = dict(
     engine="E4 havoc via CrossHair; E3 AST path encoder + z3",
     technique="havoc harness under CrossHair: per-page context state symbolic, protocol start_page+parse/expand compared with a fresh context; z3 path query for in-place mutation of aliased module-level tables",
-    text="For ALL values of the per-page slots (flags, line counters, section/title, cookie tables, message lists, expansion path, strip-marker counters, parser stack) left behind by any earlier page, start_page followed by parse()/expand() of each catalogue document gives the fresh-context tree, messages and expansion path: confirmed over all paths. No path through Wtp.__init__ mutates a module-level table through an alias; every returning path of call_lua_sandbox (exception handlers included) pops the Lua frame and environment stacks it pushed, so no invocation inherits another's environment. Counterexamples are replayed by finding a real dirtying history / a failing invocation followed by a stateful module. Every table mw.loadData/mw.loadJsonData cache results in is emptied by the function start_page calls (facts read from the current Lua source, replayed with a data module modified on one page).",
+    text="For ALL values of the per-page slots (flags, line counters, section/title, cookie tables, message lists, expansion path, strip-marker counters, parser stack) left behind by any earlier page, start_page followed by parse()/expand() of each catalogue document gives the fresh-context tree, messages and expansion path: confirmed over all paths. No path through Wtp.__init__ mutates a module-level table through an alias; every returning path of call_lua_sandbox (exception handlers included) pops the Lua frame and environment stacks it pushed, so no invocation inherits another's environment. Counterexamples are replayed by finding a real dirtying history / a failing invocation followed by a stateful module. Every table mw.loadData/mw.loadJsonData cache results in is emptied by the function start_page calls (facts read from the current Lua source, replayed with a data module modified on one page). Objects handed to Lua by reference at sandbox initialisation (functools.partial captures) are never rebound by a context method.",
     design_ref="DESIGN.md 3 C09",
     note="Lua-side state is outside; assumes the begline representation invariant; documents are a fixed catalogue (10 documents x pre_expand on/off); container shapes fixed, contents symbolic.",
 )
@@ -53,35 +53,35 @@ CHECKS["C10"] = dict(
 CHECKS["C17"] = dict(
     engine="E1 CrossHair on the real code + SQLite",
     technique="CrossHair-driven exhaustive case split over bounded inclusion graphs, executing the real analyze_templates on a real SQLite store against an independent least-fixpoint closure",
-    text="For every inclusion graph on 2 templates (each edge absent / exact / written with a lower-case initial), every classifier flag set and every placement of one redirect page (target, dangling, flagged or not, included or not), the marked set equals the closure plus the redirect rule and the analysis terminates; thorough adds 3-template graphs. The solver enumerates a finite space here - labelled as the weakest use of the technique. Edge spellings (lower-case initial, underscore, Template: prefix) cycle over the conditions and every second condition starts from a store in which need_pre_expand flags are already set.",
+    text="For every inclusion graph on 2 templates (each edge absent / exact / written with a lower-case initial), every classifier flag set and every placement of one redirect page (target, dangling, flagged or not, included or not), the marked set equals the closure plus the redirect rule and the analysis terminates; thorough adds 3-template graphs. The solver enumerates a finite space here - labelled as the weakest use of the technique. Edge spellings (lower-case initial, underscore, Template: prefix) cycle over the conditions and every second condition starts from a store in which need_pre_expand flags are already set. The analysis itself runs untraced (CrossHair would bypass the lru_cache memo it clears) under an alarm that turns non-termination into a failure; 3-template graphs are part of the quick tier.",
     design_ref="DESIGN.md 3 C17",
-    note="Bounded (n<=2 quick, n<=3 thorough); redirect propagation modelled as one step after the closure; several redirects / chains outside.",
+    note="Bounded (n<=3 quick, n<=4 thorough); redirect propagation modelled as one step after the closure; several redirects / chains outside.",
 )
 CHECKS["C02"] = dict(
     engine="E1 CrossHair; E2 z3 regex",
     technique="CrossHair symbolic execution of the real heading/rule/list/text handlers from an arbitrary valid parser state (inductive one-step lemmas); z3 regular-language lemmas for the line classification",
-    text="From EVERY valid parser state of the abstraction (any set of open section levels, any chain of open */# list items with symbolic markers up to the bound) one heading, heading-end, rule, list or filler step leaves exactly the state the nesting model prescribes: confirmed over all paths. Since the lemmas are closed under the abstraction they compose to documents of any length (paper induction in DESIGN.md). Tokenizer patterns classify the three line shapes as assumed (unbounded length).",
+    text="From EVERY valid parser state of the abstraction (any set of open section levels, any chain of open */# list items with symbolic markers up to the bound) one heading, heading-end, rule, list or filler step leaves exactly the state the nesting model prescribes: confirmed over all paths. Since the lemmas are closed under the abstraction they compose to documents of any length (paper induction in DESIGN.md). Tokenizer patterns classify the three line shapes as assumed (unbounded length). Line-start syntax stays disabled for every well-nested sequence of argument re-parses (lists and headings inside template/link arguments that span lines).",
     design_ref="DESIGN.md 3 C02",
     note="Definition lists (; :), fillers with markup and headings inside HTML/tables are outside; assumes the begline representation invariant; replays go through Wtp.parse against an independent reference builder.",
 )
 CHECKS["C15"] = dict(
     engine="E1 CrossHair; E3 AST path encoder + z3",
     technique="CrossHair symbolic execution of nowiki_quote / preprocess_text / _finalize_expand / magic_fn on documents with pinned tags and symbolic content; z3 path queries over the expander's cookie loops",
-    text="For every content string up to the bound (every markup character at every position): quoting leaves no markup outside entities and decodes back; <nowiki>c</nowiki> becomes exactly one N cookie holding c verbatim which finalisation renders quoted; the parse-side handler only adds the quoted text whatever the line-start state; a closed comment and the newline before it vanish. On every syntactic path of the expander's two cookie loops the N branch only re-emits the cookie; preprocess_text saves paired nowiki bodies before it replaces self-closing tags or removes comments (z3 shows the order matters, the AST gives the order). Finalisation substitutes cookies until none is left (fixed-point loop, AST fact, replayed with nowiki nested in up to 6 unexpanded constructs).",
+    text="For every content string up to the bound (every markup character at every position): quoting leaves no markup outside entities and decodes back; <nowiki>c</nowiki> becomes exactly one N cookie holding c verbatim which finalisation renders quoted; the parse-side handler only adds the quoted text whatever the line-start state; a closed comment and the newline before it vanish. On every syntactic path of the expander's two cookie loops the N branch only re-emits the cookie; preprocess_text saves paired nowiki bodies before it replaces self-closing tags or removes comments (z3 shows the order matters, the AST gives the order). Finalisation substitutes cookies until none is left (fixed-point loop, AST fact, replayed with nowiki nested in up to 6 unexpanded constructs). parse('<nowiki>c</nowiki>') yields text only, c quoted exactly once (end to end, symbolic markup characters).",
     design_ref="DESIGN.md 3 C15",
     note="Embedding in arguments/links/cells through the whole pipeline is covered only by the path query and the replay catalogue; rev_ht stubbed by an association list; content bound is small (per-character behaviour).",
 )
 CHECKS["C01"] = dict(
     engine="E2 z3 regex; E1 CrossHair",
     technique="z3 sequence-theory language inclusion between the tokenizer's tag alternatives and tag_fn's own patterns (no length bound), emptiness and repeat-count lemmas; CrossHair on the string-merge kernel",
-    text="Necessary conditions only: every tag-like token the tokenizer can emit is accepted by tag_fn (else tag_fn raises), no token alternative matches the empty string, every heading bookend is a key of the level table - all for strings of any length; the merge kernel establishes 'non-empty strings, no two adjacent, no placeholder characters' for symbolic children lists, attribute values lose their placeholder characters when a node is popped, and the URL part of an external link is merged/finalized when it becomes an argument. Whole-document well-formedness is NOT claimed. One magic_fn step on a saved template/parameter/link/external-link construct whose arguments open formatting, lists or rules leaves nothing it opened still open and never pops ROOT.",
+    text="Necessary conditions only: every tag-like token the tokenizer can emit is accepted by tag_fn (else tag_fn raises), no token alternative matches the empty string, every heading bookend is a key of the level table - all for strings of any length; the merge kernel establishes 'non-empty strings, no two adjacent, no placeholder characters' for symbolic children lists, attribute values lose their placeholder characters when a node is popped, and the URL part of an external link is merged/finalized when it becomes an argument. Whole-document well-formedness is NOT claimed. One magic_fn step on a saved template/parameter/link/external-link construct whose arguments open formatting, lists or rules leaves nothing it opened still open and never pops ROOT. Text tokens arriving after a closed link leave the link with at most one (trail) string and lose nothing.",
     design_ref="DESIGN.md 3 C01",
     note="\\b modelled by a marker literal (sound for inclusion, models replayed on Wtp.parse); placement rules, argument shapes and other raise sites are outside.",
 )
 CHECKS["C13"] = dict(
     engine="E1 CrossHair; E3 AST path encoder + z3",
     technique="CrossHair on check_template_need_expand with symbolic selection sets and on the AST-sliced expand_parserfn; z3 path queries over the hook call sites of the expander's cookie loop",
-    text="The selection rule equals 'existing, not excluded and (selected or flagged)' on every combination of set None-ness/membership; the parser-function switches re-emit the call text for symbolic arguments with a balanced path; on every syntactic path of one template call the hooks run at most once, a used template_fn result bypasses the body lookup, and an unselected call is re-emitted exactly once without hooks. A second expand() on the same page, with an independently chosen selection, returns what the rule gives for that selection alone (real store, solver-driven case split).",
+    text="The selection rule equals 'existing, not excluded and (selected or flagged)' on every combination of set None-ness/membership; the parser-function switches re-emit the call text for symbolic arguments with a balanced path; on every syntactic path of one template call the hooks run at most once, a used template_fn result bypasses the body lookup, and an unselected call is re-emitted exactly once without hooks. A second expand() on the same page, with an independently chosen selection, returns what the rule gives for that selection alone (real store, solver-driven case split). Calls left unexpanded come back with all their nested arguments: the final placeholder substitution runs to a fixed point.",
     design_ref="DESIGN.md 3 C13",
     note="Whole-page 'text comes back unchanged' and the hooks' argument map are outside (C14 covers the map); path conditions are uninterpreted, violating paths are replayed with recording hooks.",
 )
@@ -102,14 +102,14 @@ CHECKS["C04"] = dict(
 CHECKS["C06"] = dict(
     engine="E1 CrossHair; z3 (finite query); AST fact",
     technique="CrossHair symbolic execution of lua_loader's path sanitiser (recording path stub) and of the attribute filter closure sliced from initialize_lua; z3 query over the retained-module / block-list tables read from the current Lua source and a fresh runtime's package.loaded",
-    text="Python-side gates only: for every module name within the bounds the loader probes only relative paths without '..' components; the attribute filter refuses underscore names, non-str names and every attribute of the context-bound partial helpers for all names up to 4 characters; no capability library the host keeps in package.loaded is served by require() or by any reader of package.loaded that is exported into the sandbox environment; LuaRuntime is constructed with register_eval=False and the filter. What Lua code can do INSIDE the VM is not decided. Every value _lua_reset_env exports into the sandbox is resolved through local aliases and must not be a host capability; a suspicious export is confirmed by a probe module that uses it in the real sandbox.",
+    text="Python-side gates only: for every module name within the bounds the loader probes only relative paths without '..' components; the attribute filter refuses underscore names, non-str names and every attribute of the context-bound partial helpers for all names up to 4 characters; no capability library the host keeps in package.loaded is served by require() or by any reader of package.loaded that is exported into the sandbox environment; LuaRuntime is constructed with register_eval=False and the filter. What Lua code can do INSIDE the VM is not decided. Every value _lua_reset_env exports into the sandbox is resolved through local aliases and must not be a host capability; a suspicious export is confirmed by a probe module that uses it in the real sandbox. Phase 1 of the bootstrap never uses the host's _G as a value (source fact, replayed with data modules that report visible host libraries).",
     design_ref="DESIGN.md 3 C06",
     note="The environment whitelist, metatables and everything reachable by running Lua are outside; replays boot the real sandbox with a stub ustring module.",
 )
 CHECKS["C03"] = dict(
     engine="E1 CrossHair; E2 z3 regex",
     technique="CrossHair symbolic execution of the real table handlers from every table state of the abstraction (one-step lemmas) and of parse_attrs on written attributes; z3 regular-language inclusion for the table-attribute detector",
-    text="Tables: from every state (table / caption / row with up to two closed cells of symbolic kind and an optional open cell) each of the tokens |-, |, !, ||, !!, |+, |} leaves exactly the state the written grid prescribes; by induction over tokens an r x c grid gives r rows of c cells of the written kind. Attributes: parse_attrs returns exactly the written map for symbolic names/values in all three quoting styles; the detector accepts the whole URL-safe attribute grammar (unbounded). The permitted-parent relation that drives HTML auto-closing equals the content-model rule of wikihtml.py on every ordered pair of allowed tags (z3 over the relation computed by the real code). Link/template argument lists are NOT claimed. Attributes written on a table, row or cell become that node's attribute map; `|` inside a link/template/parameter reference closes the current argument; line-start syntax stays disabled for every well-nested sequence of argument re-parses.",
+    text="Tables: from every state (table / caption / row with up to two closed cells of symbolic kind and an optional open cell) each of the tokens |-, |, !, ||, !!, |+, |} leaves exactly the state the written grid prescribes; by induction over tokens an r x c grid gives r rows of c cells of the written kind. Attributes: parse_attrs returns exactly the written map for symbolic names/values in all three quoting styles; the detector accepts the whole URL-safe attribute grammar (unbounded). The permitted-parent relation that drives HTML auto-closing equals the content-model rule of wikihtml.py on every ordered pair of allowed tags (z3 over the relation computed by the real code). Link/template argument lists are NOT claimed. Attributes written on a table, row or cell become that node's attribute map; `|` inside a link/template/parameter reference closes the current argument; line-start syntax stays disabled for every well-nested sequence of argument re-parses. Cell separators inside an open HTML element / link / template / external link in a cell are text.",
     design_ref="DESIGN.md 3 C03",
     note="State shapes are enumerated, kinds and text symbolic; cell text is concrete in the ||/!! steps (CrossHair artefact); vbar_split's back-reference pattern is not encodable.",
 )
